@@ -302,7 +302,10 @@ def run(pid):
                 got = [x.split(",") if x != "-" else [] for x in d["tr"].split("/")]
                 want = exp
                 if pid == "C14":
-                    if got != want and any("HANG" in g for g in got) and spurious_dispatch(toks):
+                    # K14: after a spurious dispatch a worker sits in a blocking read on an idle connection; what the clients then see
+                    # depends on the race with that connection's read time-out (requests queued behind it hang, or the idle
+                    # connection is closed by the time-out and its next request finds EOF)
+                    if got != want and spurious_dispatch(toks):
                         o.extra["known_class_spurious_dispatch_cases"] = o.extra.get("known_class_spurious_dispatch_cases", 0) + 1
                     elif got != want:
                         j = next(x for x in range(len(want)) if x >= len(got) or got[x] != want[x])
